@@ -9,7 +9,11 @@
 //   during the init. Lifetime is ensured by not dropping until the Drop of the whole slot and that
 //   is checked by taking `&mut self`.
 
+#[cfg(not(sighook_verif))]
 use std::sync::atomic::{AtomicPtr, Ordering};
+#[cfg(sighook_verif)]
+#[allow(unused_imports)]
+use signal_hook_registry::verif_shim::atomic::*;
 
 use libc::{c_int, siginfo_t};
 
